@@ -354,15 +354,32 @@ func (in *Interp) conv(tDst, tSrc types.Type, x value) value {
 			}
 			return normStr(r)
 		case types.Rune:
-			rs := make([]rune, len(xs))
+			allConst := true
+			for i := range xs {
+				if !xs[i].(*Term).IsConst() {
+					allConst = false
+				}
+			}
+			if allConst {
+				rs := make([]rune, len(xs))
+				for i := range xs {
+					rs[i] = rune(xs[i].(*Term).SVal())
+				}
+				return string(rs)
+			}
+			var atoms []Atom
 			for i := range xs {
 				t := xs[i].(*Term)
-				if !t.IsConst() {
-					panic(unsupported{"[]rune with symbolic elements to string"})
+				if t.IsConst() {
+					atoms = append(atoms, in.litAtoms(string(rune(t.SVal())))...)
+					continue
 				}
-				rs[i] = rune(t.SVal())
+				if !in.branch(tb.BVULt(t, tb.BV(SBV32, 0x80))) {
+					panic(unsupported{"string([]rune) with symbolic non-ASCII rune"})
+				}
+				atoms = append(atoms, Atom{t: tb.BVConv(t, SBV8, false)})
 			}
-			return string(rs)
+			return normStr(&Rope{atoms: atoms})
 		}
 	case *types.Basic:
 		if utSrc.Kind() == types.UnsafePointer {
@@ -384,7 +401,37 @@ func (in *Interp) conv(tDst, tSrc types.Type, x value) value {
 				case types.Rune:
 					s, ok := x.(string)
 					if !ok {
-						panic(unsupported{"[]rune of symbolic string"})
+						// symbolic bytes: supported when every byte is ASCII on this path
+						r := in.ropeOf(x)
+						r.byteLevel("[]rune(s)")
+						res := []value{}
+						for i := 0; i < len(r.atoms); {
+							a := r.atoms[i]
+							if a.t.IsConst() {
+								// decode a maximal run of concrete bytes natively
+								j := i
+								var run []byte
+								for j < len(r.atoms) && r.atoms[j].t.IsConst() {
+									run = append(run, byte(r.atoms[j].t.val))
+									j++
+								}
+								// a trailing incomplete sequence followed by symbolic bytes is not handled
+								if j < len(r.atoms) && len(run) > 0 && run[len(run)-1] >= 0x80 && !utf8.Valid(run) {
+									panic(unsupported{"[]rune of string mixing symbolic bytes into a multi-byte sequence"})
+								}
+								for _, rn := range string(run) {
+									res = append(res, tb.BV(SBV32, uint64(rn)))
+								}
+								i = j
+								continue
+							}
+							if !in.branch(tb.BVULt(a.t, tb.BV(SBV8, 0x80))) {
+								panic(unsupported{"[]rune of symbolic string with non-ASCII byte"})
+							}
+							res = append(res, tb.BVConv(a.t, SBV32, false))
+							i++
+						}
+						return res
 					}
 					var res []value
 					for _, r := range s {
